@@ -411,5 +411,88 @@ pub fn find_chrom<'a>(v: &'a [ChromInfo], chrom_name: &Name) -> (r: Option<&'a C
                 values.all().len() - values.pos(),
 //@end
 
+/// `bigbedtobed --zoom N` (summary rows of a zoom level instead of records): NOT part of C16.  The whole
+/// `if let Some(zoom) = zoom { .. }` branch of write_bed_singlethreaded is replaced by a call of this stub
+/// (nothing promised except that the reader still serves the same file).
+#[verifier::external_body]
+pub fn zoom_mode(bigbed: &mut Reader<BedEntry>, writer: &mut Out, chroms: Vec<ChromInfo>, start: Option<u32>, end: Option<u32>, zoom: u32) -> (r: Result<(), AnyErr>)
+    ensures final(bigbed).file() == old(bigbed).file() && final(bigbed).table() == old(bigbed).table(),
+{ unimplemented!() }
+#[verifier::loop_isolation(false)]
+//@extract fn bigtools/src/utils/cli/bigbedtobed.rs write_bed_singlethreaded
+//@rule R7
+//@presub /if let Some\(zoom\) = zoom \{\n.*?\n    \} else \{\n/ => if let Some(zoom) = zoom {\n        return zoom_mode(bigbed, writer, chroms, start, end, zoom);\n    } else {\n min=1 count=1
+//@sub /write_bed_singlethreaded<R: Reopen \+ SeekableRead>/ => write_bed_singlethreaded min=1
+//@sub /mut bigbed: BigBedRead<R>/ => bigbed: &mut Reader<BedEntry> min=1
+//@sub /Box<dyn Error>/ => AnyErr min=1
+//@sub /out_file: File/ => out_file: &mut Out min=1
+//@sub /Option<String>/ => Option<Name> min=1
+//@sub /\bString\b/ => Buf min=0
+//@sub /(\w+)\.as_ref\(\)\.and_then\(\|_\| (\w+)\)/ => (match \1.as_ref() { Some(_) => \2, None => None }) min=0
+//@sub /((?:\w+(?:\(\))?\s*\.\s*)*\w+(?:\(\))?)\s*\.iter\(\)\s*\.find\(\|&?\w+\| \w+\.name == (\w+)\)/ => find_chrom(\1, &\2) min=0
+//@sub /for (\w+) in ([^\n{]*?get_interval\([^\n]*?\)\?) \{/ => let mut values = \2; loop { let \1 = match values.next() { Some(x__) => x__, None => break }; min=0
+//@ret r
+//@sig
+    ensures
+        [[L: bed_st/reader_serves_the_same_file]]
+        final(bigbed).file() == old(bigbed).file() && final(bigbed).table() == old(bigbed).table(),
+        [[L: bed_st/unknown_chromosome_is_ok_writes_nothing_asks_nothing]]
+        zoom is None && wanted(old(bigbed).table(), chrom) is None ==> r is Ok && final(out_file).lines() == old(out_file).lines()
+            && final(bigbed).queries() == old(bigbed).queries(),
+        [[L: bed_st/one_range_query_per_wanted_chromosome_in_file_order_start_end_only_with_chrom]]
+        zoom is None ==> (wanted(old(bigbed).table(), chrom) matches Some(cs) ==> (r is Ok ==>
+            final(bigbed).queries() == old(bigbed).queries() + all_queries(cs, cs.len() as int, eff(chrom, start), eff(chrom, end)))),
+        [[L: bed_st/output_is_one_line_per_record_of_each_range_query_result_in_order]]
+        zoom is None ==> (wanted(old(bigbed).table(), chrom) matches Some(cs) ==> (r is Ok ==>
+            final(out_file).lines() == old(out_file).lines() + all_text::<BedEntry>(old(bigbed).file(), cs, cs.len() as int, eff(chrom, start), eff(chrom, end)))),
+        [[L: bed_st/a_read_error_is_returned]]
+        zoom is None ==> (wanted(old(bigbed).table(), chrom) matches Some(cs) ==> (r is Ok ==>
+            all_clean::<BedEntry>(old(bigbed).file(), cs, cs.len() as int, eff(chrom, start), eff(chrom, end)))),
+//@open
+    let ghost chrom0 = chrom;
+    let ghost start0 = start;
+    let ghost end0 = end;
+    let ghost f0 = bigbed.file();
+    let ghost q0 = bigbed.queries();
+    let ghost l0 = out_file.lines();
+//@at /let mut writer = / before
+    let ghost s_ = start;
+    let ghost e_ = end;
+    assert(s_ == eff(chrom0, start0) && e_ == eff(chrom0, end0)); [[L: bed_st/start_and_end_count_only_with_chrom]]
+    assert(wanted(bigbed.table(), chrom0) == Some(chroms@)); [[L: bed_st/chromosome_list_is_the_named_one_or_the_whole_table]]
+//@loop 1
+        invariant
+            [[L: bed_st/loop/frame]]
+            bigbed.file() == f0, bigbed.table() == old(bigbed).table(), s_ == start, e_ == end,
+            wanted(old(bigbed).table(), chrom0) == Some(chroms@),
+            [[L: bed_st/loop/line_buffer_empty_between_chromosomes]]
+            buf.text() == Seq::<Piece>::empty(),
+            [[L: bed_st/loop/text_so_far]]
+            writer.lines() == l0 + all_text::<BedEntry>(f0, chroms@, i__1 as int, s_, e_),
+            [[L: bed_st/loop/queries_so_far]]
+            bigbed.queries() == q0 + all_queries(chroms@, i__1 as int, s_, e_),
+            [[L: bed_st/loop/clean_so_far]]
+            all_clean::<BedEntry>(f0, chroms@, i__1 as int, s_, e_),
+//@loop 2
+            invariant
+                [[L: bed_st/inner/frame]]
+                0 <= i__1 < chroms@.len(), *chrom == chroms@[i__1 as int],
+                bigbed.file() == f0, bigbed.table() == old(bigbed).table(), wanted(old(bigbed).table(), chrom0) == Some(chroms@),
+                [[L: bed_st/inner/one_query_for_this_chromosome_name_start_or_0_end_or_length]]
+                bigbed.queries() == q0 + all_queries(chroms@, i__1 as int, s_, e_).push(chrom_query(*chrom, s_, e_)),
+                [[L: bed_st/inner/records_are_the_range_query_result_for_name_start_or_0_end_or_length]]
+                chrom_answer::<BedEntry>(f0, *chrom, s_, e_) == Ok::<Seq<Result<BedEntry, BBIReadError>>, BBIReadError>(values.all()),
+                values.pos() <= values.all().len(),
+                [[L: bed_st/inner/line_buffer_empty_at_each_record]]
+                buf.text() == Seq::<Piece>::empty(),
+                [[L: bed_st/inner/lines_so_far]]
+                writer.lines() == l0 + all_text::<BedEntry>(f0, chroms@, i__1 as int, s_, e_) + lines_of(chrom.name, values.all(), values.pos() as int),
+                [[L: bed_st/inner/items_ok_so_far]]
+                items_ok(values.all(), values.pos() as int),
+            decreases
+                [[L: bed_st/inner/termination]]
+                values.all().len() - values.pos(),
+//@end
+
 } // verus!
 fn main() {}
